@@ -136,6 +136,15 @@ def check_capabilities(rep, sub, remote, ir, spec, via_file):
         raise Violation("C15/capabilities/toggle-type", case, cap["toggle"], remote.on_off_type)
     if remote.separated_swing_command is not cap["separate_swing"]:
         raise Violation("C15/capabilities/separate-swing", case, cap["separate_swing"], remote.separated_swing_command)
+    # the caller owns the list it was handed: editing it must not change what the remote supports
+    try:
+        handed = remote.supported_modes
+        handed.clear()
+    except Exception:
+        pass
+    again = sorted(m.display for m in remote.supported_modes)
+    if again != sorted(cap["supported"]):
+        raise Violation("C15/capabilities/supported-modes-after-caller-edited-the-list", case, sorted(cap["supported"]), again)
     if remote.remote_id != cap["remote_id"]:
         raise Violation("C15/capabilities/remote-id", case, cap["remote_id"], remote.remote_id)
     # the separate swing command of the special remotes
